@@ -113,14 +113,22 @@ int main(int argc, char** argv) {
       printf("text %s -> v = %.17g -> %%g = %s\n", show(t).c_str(), v, g.c_str());
       if (g != t) {
         printf("not realisable: printf(\"%%g\") of that value is a different text\n");
-        return 2;
+        v = 1.5;     // go on with the witness values below
       }
     }
-    if (!std::isfinite(v)) {
+    if (std::isfinite(v)) {
+      if (int r = roundtrip(JSON(v), options, strict, true)) return r;
+    } else {
       printf("not a finite double\n");
-      return 2;
     }
-    return roundtrip(JSON(v), options, strict, true);
+    // The counterexample is over an abstract %g text (and abstract rounding functions); witness values on which the text forms of
+    // %g differ: integral, non-integral with and without a fraction in the six-digit text, exponent forms, boundaries
+    for (double w : {123456.7, 99999.97, 0.9999999, -41.99999999, 1e15 + 0.5, 100000.0, 1e6, 1e-5, 0.0001, -0.0, 1.4, -10.5, 2.5e-310, 1.7976931348623157e308}) {
+      printf("witness value %.17g\n", w);
+      if (int r = roundtrip(JSON(w), options & ~NONSTANDARD, true, true)) return r;
+      if (int r = roundtrip(JSON(w), options, false, true)) return r;
+    }
+    return 0;
   }
   if (a.mode == "int_roundtrip") {
     int64_t v = (int64_t)a.u("in_v");
